@@ -10,6 +10,8 @@
 (*      nested (1 iff the inner band's rms <= outer), qswap (|get_rms      *)
 (*      with swapped ends - integral_rms|), qfull (|get_rms(None) -        *)
 (*      integral_rms over the whole grid|), cross_raises]                  *)
+(*  [t |-> "steep", qdef (|integral_rms^2 - trapezoid over the in-band      *)
+(*      points| / that trapezoid) for a 1/f^3 ASD over six decades]        *)
 (*  [t |-> "parseval", qratio = rms_spectrum/rms_time in Q 2^20]           *)
 (***************************************************************************)
 EXTENDS Exact, Json, IOUtils
@@ -32,6 +34,8 @@ Step ==
               /\ Check("C19:get_rms_is_the_integral_with_swapped_ends", Ev.qswap <= 4)
               /\ Check("C19:get_rms_default_is_full_band", Ev.qfull <= 4)
               /\ Check("C19:rms_not_available_for_cross_results", Ev.cross_raises = 1)
+         [] Ev.t = "steep" ->
+              Check("C19:band_rms_is_the_integral_over_the_in_band_points", Ev.qdef <= 64)
          [] Ev.t = "parseval" ->
               Check("C19:spectral_rms_reproduces_time_domain_rms", Ev.qratio >= 996147 /\ Ev.qratio <= 1101005)   \* within 5 %
     /\ l' = l + 1 /\ UNCHANGED tid
